@@ -662,7 +662,7 @@ static void build_graph(struct uftrace_opts *opts, struct uftrace_data *handle, 
 		last_time = task->rstack->time;
 
 		if (handle->time_range.stop)
-			last_time = handle->time_range.stop;
+			last_time = time_range_stop(&handle->time_range);
 
 		while (--task->stack_count >= 0) {
 			fstack = fstack_get(task, task->stack_count);
